@@ -318,21 +318,21 @@ theorem eqv_noPanic (hs : s.WF) {l r : VCell} (hl : VCell.Valid s l) (hr : VCell
     simp only [hcl, hcr, bind_ok]
     exact eqvCells_noPanic hvl hvr
 
-/-- `equal?`'s three mutually recursive loops, by induction on the fuel -/
-theorem equal_all_noPanic (hs : s.WF) : ∀ f : Nat,
-    (∀ l r, VCell.Valid s l → VCell.Valid s r → Outcome.NoPanic (equal f s l r)) ∧
-    (∀ l r, VCell.Valid s l → VCell.Valid s r → Outcome.NoPanic (comparePair f s l r)) ∧
-    (∀ xs ys, xs.length = ys.length → (∀ x ∈ xs, VCell.Valid s x) → (∀ y ∈ ys, VCell.Valid s y) →
-      Outcome.NoPanic (compareVector f s xs ys)) := by
+/-- `equal?`'s three mutually recursive loops (after the repair dfd9e81), by induction on the fuel -/
+theorem equalSeen_all_noPanic (hs : s.WF) : ∀ f : Nat,
+    (∀ seen l r, VCell.Valid s l → VCell.Valid s r → Outcome.NoPanic (equalSeen f s seen l r)) ∧
+    (∀ seen l r, VCell.Valid s l → VCell.Valid s r → Outcome.NoPanic (comparePairSeen f s seen l r)) ∧
+    (∀ seen xs ys, xs.length = ys.length → (∀ x ∈ xs, VCell.Valid s x) → (∀ y ∈ ys, VCell.Valid s y) →
+      Outcome.NoPanic (compareVectorSeen f s seen xs ys)) := by
   intro f
   induction f with
-  | zero => exact ⟨fun _ _ _ _ => by simp [equal], fun _ _ _ _ => by simp [comparePair],
-      fun _ _ _ _ _ => by simp [compareVector]⟩
+  | zero => exact ⟨fun _ _ _ _ _ => by simp [equalSeen], fun _ _ _ _ _ => by simp [comparePairSeen],
+      fun _ _ _ _ _ _ => by simp [compareVectorSeen]⟩
   | succ f ih =>
     obtain ⟨ihE, ihP, ihV⟩ := ih
     refine ⟨?_, ?_, ?_⟩
-    · intro l r hl hr
-      unfold equal
+    · intro seen l r hl hr
+      unfold equalSeen
       refine noPanic_bind (eqv_noPanic hs hl hr) (fun b _ => ?_)
       split
       · simp
@@ -341,51 +341,69 @@ theorem equal_all_noPanic (hs : s.WF) : ∀ f : Nat,
         obtain ⟨cr, hcr, hvr⟩ := get_valid hs hr
         simp only [hcl, hcr, bind_ok]
         split
-        · exact ihP _ _ hvl hvr
+        · split
+          · simp
+          · exact ihP _ _ _ hvl hvr
         · rename_i i j
           have hi : i < s.vecs.length := hvl
           have hj : j < s.vecs.length := hvr
-          simp only [vecGet_ok hi, vecGet_ok hj, bind_ok]
           split
           · simp
-          · rename_i hne
-            exact ihV _ _ (by simpa using hne) (vec_slots_valid hs hi) (vec_slots_valid hs hj)
+          · simp only [vecGet_ok hi, vecGet_ok hj, bind_ok]
+            split
+            · simp
+            · rename_i hne
+              exact ihV _ _ _ (by simpa using hne) (vec_slots_valid hs hi) (vec_slots_valid hs hj)
         · rename_i i j
           have hi : i < s.strs.length := hvl
           have hj : j < s.strs.length := hvr
           simp [strGet_ok hi, strGet_ok hj]
-        · exact eqv_noPanic hs hvl hvr
-    · intro l r hl hr
-      unfold comparePair
+        · exact noPanic_bind (eqv_noPanic hs hvl hvr) (fun _ _ => by simp)
+    · intro seen l r hl hr
+      unfold comparePairSeen
       split
-      · exact ihE _ _ hl hr
+      · exact ihE _ _ _ hl hr
       · cases l with
         | pair a d =>
           cases r with
           | pair a' d' =>
             simp only [VCell.asCar_pair, VCell.asCdr_pair, bind_ok]
-            refine noPanic_bind (ihE _ _ (show VCell.Valid s (.ptr a) from hl.1)
+            refine noPanic_bind (ihE _ _ _ (show VCell.Valid s (.ptr a) from hl.1)
               (show VCell.Valid s (.ptr a') from hr.1)) (fun b _ => ?_)
+            obtain ⟨b, seen1⟩ := b
+            simp only
             split
             · simp
             · obtain ⟨c1, h1, v1⟩ := get_valid hs (v := .ptr d) hl.2
               obtain ⟨c2, h2, v2⟩ := get_valid hs (v := .ptr d') hr.2
-              simp only [h1, h2, bind_ok]
-              exact ihP _ _ v1 v2
+              simp only [h1, h2, bind_ok, VCell.asPtr_ptr]
+              split
+              · split
+                · simp
+                · exact ihP _ _ _ v1 v2
+              · exact ihP _ _ _ v1 v2
           | _ => simp_all [VCell.isPair]
         | _ => simp_all [VCell.isPair]
-    · intro xs ys hlen hx hy
+    · intro seen xs ys hlen hx hy
       cases xs with
-      | nil => simp [compareVector]
+      | nil => simp [compareVectorSeen]
       | cons x xs' =>
         cases ys with
         | nil => simp at hlen
         | cons y ys' =>
-          simp only [compareVector]
-          refine noPanic_bind (ihE _ _ (hx x (by simp)) (hy y (by simp))) (fun b _ => ?_)
+          simp only [compareVectorSeen]
+          refine noPanic_bind (ihE _ _ _ (hx x (by simp)) (hy y (by simp))) (fun b _ => ?_)
+          obtain ⟨b, seen1⟩ := b
+          simp only
           split
           · simp
-          · exact ihV _ _ (by simpa using hlen) (fun z hz => hx z (by simp [hz]))
+          · exact ihV _ _ _ (by simpa using hlen) (fun z hz => hx z (by simp [hz]))
               (fun z hz => hy z (by simp [hz]))
+
+/-- `Vm::equal` -/
+theorem equal_noPanic (hs : s.WF) (f : Nat) {l r : VCell} (hl : VCell.Valid s l) (hr : VCell.Valid s r) :
+    Outcome.NoPanic (equal f s l r) := by
+  unfold equal
+  exact noPanic_bind ((equalSeen_all_noPanic hs f).1 [] l r hl hr) (fun a _ => by obtain ⟨b, sn⟩ := a; simp)
 
 end Marwood.Store
